@@ -19,5 +19,7 @@ pub mod xmlname;
 
 #[cfg(feature = "full")]
 pub const VARIANT: &str = "full";
-#[cfg(not(feature = "full"))]
+#[cfg(all(not(feature = "full"), feature = "html"))]
+pub const VARIANT: &str = "html";
+#[cfg(all(not(feature = "full"), not(feature = "html")))]
 pub const VARIANT: &str = "min";
